@@ -432,6 +432,56 @@ pub fn nested_choice_value(m: &Model, ctx: &mut Ctx, rule: &str) {
     }
 }
 
+/// The generator side of the same notation: `Rasn::value_to_tokens` turns the linker's internal name `INNER$<alternative>$<parent>`
+/// of a nested CHOICE value into the Rust name of the hoisted type. The hoisted type is *declared* under
+/// inner_name(<alternative as written>, <Rust name of the parent>) (C01.inner); the value side must arrive at the same
+/// identifier — in particular the parent's ASN.1 spelling (`My-Type`) has to pass through the type-name mangler, or the
+/// identifier is built from a raw ASN.1 name (`format_ident!("My-TypeA")` panics; `Ty_8` vs `Ty8` would not resolve).
+pub fn nested_choice_ident(m: &Model, ctx: &mut Ctx, rule: &str) {
+    use std::collections::BTreeMap as Map;
+    let Some(f) = m.fns.iter().find(|f| f.name == "value_to_tokens" && f.self_ty.as_deref() == Some("Rasn")) else {
+        ctx.fail_closed(rule, "anchor not found: Rasn::value_to_tokens");
+        return;
+    };
+    ctx.oblige(rule, "nested-choice-value:type-identifier", true);
+    let consts = const_resolver(m);
+    let mut inl = inline_all(m, &["Rasn"]);
+    inl.retain(|k, _| [".inner_name", ".value_to_tokens"].contains(&k.as_str()));
+    let hook = |_: &Evaluator, name: &str, a: &[Val]| -> Option<Result<Val, String>> {
+        match name {
+            ".to_rust_title_case" | ".to_rust_enum_identifier" | ".to_rust_snake_case" => match a.get(1) {
+                Some(Val::Str(n)) | Some(Val::Sym(n)) => Some(Ok(Val::Sym(format!("{}<{}>", if name.ends_with("title_case") { "T" } else { "M" }, n)))),
+                _ => None,
+            },
+            ".to_token_stream" | ".to_owned" | ".clone" if a.len() == 1 => Some(Ok(a[0].clone())),
+            ".to_string" if a.len() == 1 => Some(Ok(match &a[0] { Val::Sym(s) => Val::Str(s.clone()), o => o.clone() })),
+            _ => None,
+        }
+    };
+    let ev = Evaluator { consts: &consts, call_hook: &hook, inline: Some(&inl) };
+    let prefix = match consts("INTERNAL_NESTED_TYPE_NAME_PREFIX") { Some(Val::Str(p)) => p, _ => "INNER$".to_string() };
+    let named = |n: &str, fields: Vec<(&str, Val)>| Val::Ctor(n.to_string(), vec![], fields.into_iter().map(|(k, v)| (k.to_string(), v)).collect::<Map<_, _>>());
+    let value = named("Choice", vec![("type_name", Val::some(Val::Str(format!("{}m3$My-Type8", prefix)))), ("variant_name", Val::Str("m5".into())), ("inner_value", Val::Ctor("Boolean".into(), vec![Val::Bool(true)], Map::new()))]);
+    let params: Vec<String> = f.sig.inputs.iter().filter_map(|a| match a { syn::FnArg::Typed(t) => Some(tok(&t.pat)), _ => None }).collect();
+    let mut env = Env::new();
+    env.insert("self".into(), Val::ctor("Rasn"));
+    env.insert(params.first().cloned().unwrap_or("value".into()), value);
+    env.insert(params.get(1).cloned().unwrap_or("type_name".into()), Val::none());
+    match ev.eval_fn_body(&f.block, &mut env) {
+        Ok(Val::Ctor(ok, p, _)) if ok == "Ok" => {
+            let text = p.first().map(|v| match v { Val::Sym(s) | Val::Str(s) => s.clone(), o => o.show() }).unwrap_or_default().replace(' ', "");
+            // the hoisted type is declared as inner_name("m3", <Rust name of My-Type8>) = T<My-Type8> ++ T<m3>
+            if !text.contains("T<My-Type8>T<m3>") {
+                ctx.violate(rule, "nested-choice-value:type-identifier", &f.file, f.line,
+                    &format!("`v My-Type8 ::= m3 : m5 : TRUE` (m3 an inline CHOICE): value_to_tokens renders the nested value as `{}` (T<..> = through to_rust_title_case); the hoisted type is declared under the Rust name of the parent followed by the title-cased alternative, T<My-Type8>T<m3> — the parent's ASN.1 spelling reaches the identifier unmangled (format_ident! panics on `My-Type8M3`)", text.chars().take(120).collect::<String>()));
+            }
+        }
+        Ok(Val::Ctor(e, _, _)) if e == "Err" => {}
+        Ok(o) => ctx.fail_closed(rule, &format!("[nested-choice-value]: {}", o.show().chars().take(100).collect::<String>())),
+        Err(e) => ctx.fail_closed(rule, &format!("[nested-choice-value]: {}", e)),
+    }
+}
+
 /// C07.cstring: "character strings with doubled quotes unescaped" starts with finding the end of the literal: the scanner
 /// behind raw_string_literal (take_until_and_not(QUOTE, QUOTE QUOTE)) is evaluated on the text after an opening quotation
 /// mark — the literal ends at the first quotation mark that is not doubled, whatever follows later in the file.
@@ -1024,7 +1074,6 @@ Not applicable (run-time values): resolution of references, nested CHOICE/SEQUEN
         ctx.floor("C07.bits/named-bit-callers", sites, 2);
     }
 
-    struct_values(m, ctx);
     default_traversal(m, ctx);
     crate::rules::c06::named_first(m, ctx, "C07.named");
     named_lookup(m, ctx, "C07.named");
@@ -1032,6 +1081,8 @@ Not applicable (run-time values): resolution of references, nested CHOICE/SEQUEN
     inline_named_number(m, ctx, "C07.named");
     value_reference(m, ctx, "C07.ref");
     nested_choice_value(m, ctx, "C07.nest");
+    nested_choice_ident(m, ctx, "C07.nest");
+    implicit_defaults(m, ctx, "C07.struct");
     cstring_end(m, ctx, "C07.cstring");
     single_element_list(m, ctx, "C07.list");
     nesting(m, ctx, "C07.nest");
@@ -1043,120 +1094,175 @@ Not applicable (run-time values): resolution of references, nested CHOICE/SEQUEN
     strings(m, ctx, &ev);
 }
 
-/// C07.struct: a SEQUENCE / SET value denotes, for every component, the value written for it and — only when none is
-/// written — the component's DEFAULT. The per-component closure of link_struct_like is evaluated on the four
-/// combinations (written?, has DEFAULT?).
-fn struct_values(m: &Model, ctx: &mut Ctx) {
+/// C07.struct (implicit components): the value a SEQUENCE value takes for a component it leaves out is the component's
+/// DEFAULT *as a linked value*. The DEFAULT is copied from the governing type as the map of definitions holds it — linked
+/// already or still as the lexer left it, depending on which of the two definitions is linked first (i.e. on their names).
+/// link_struct_like is evaluated whole (link_with_type followed through the crate's code) on `{ a 1 }` under
+/// `SEQUENCE { a INTEGER, b Num DEFAULT two }` with the DEFAULT raw, and with the DEFAULT in each linked form: the implicit
+/// value is the named number's value under its type in every case — never a bare reference (rendered as a constant `TWO`
+/// nobody declares), and a DEFAULT that is linked already is taken over unchanged (not wrapped a second time).
+pub fn implicit_defaults(m: &Model, ctx: &mut Ctx, rule: &str) {
+    use std::collections::BTreeMap as Map;
     let Some(f) = m.fns.iter().find(|f| f.name == "link_struct_like" && f.self_ty.as_deref() == Some("ASN1Value")) else {
-        ctx.fail_closed("C07.struct", "anchor not found: ASN1Value::link_struct_like");
-        return;
-    };
-    ctx.func(&f.key);
-    struct C {
-        out: Vec<syn::ExprClosure>,
-    }
-    impl model::DeepCb for C {
-        fn expr(&mut self, e: &syn::Expr) {
-            if let syn::Expr::Closure(c) = e {
-                let t = tok(&c.body);
-                if t.contains("StructLikeFieldValue::Explicit") && t.contains("StructLikeFieldValue::Implicit") {
-                    self.out.push(c.clone());
-                }
-            }
-        }
-    }
-    let mut c = C { out: vec![] };
-    model::deep_walk_block(&f.block, &mut c);
-    let Some(clo) = c.out.iter().min_by_key(|c| tok(*c).len()) else {
-        ctx.fail_closed("C07.struct", "link_struct_like: the per-component closure (Explicit / Implicit) was not found");
+        ctx.fail_closed(rule, "anchor not found: ASN1Value::link_struct_like");
         return;
     };
     let consts = const_resolver(m);
+    let named = |n: &str, fields: Vec<(&str, Val)>| Val::Ctor(n.to_string(), vec![], fields.into_iter().map(|(k, v)| (k.to_string(), v)).collect::<Map<_, _>>());
+    let dv = |n: &str, v: i128| named("DistinguishedValue", vec![("name", Val::Str(n.into())), ("value", Val::int(v))]);
+    let num_ty = Val::Ctor("Integer".into(), vec![named("Integer", vec![("distinguished_values", Val::some(Val::List(vec![dv("one", 1), dv("two", 2)]))), ("constraints", Val::List(vec![]))])], Map::new());
+    let int_ty = Val::Ctor("Integer".into(), vec![named("Integer", vec![("distinguished_values", Val::none()), ("constraints", Val::List(vec![]))])], Map::new());
+    let members = Val::List(["red", "green"].iter().enumerate().map(|(i, m)| named("Enumeral", vec![("name", Val::Str(m.to_string())), ("index", Val::int(i as i128)), ("description", Val::none())])).collect());
+    let col_ty = Val::Ctor("Enumerated".into(), vec![named("Enumerated", vec![("members", members), ("extensible", Val::none()), ("constraints", Val::List(vec![]))])], Map::new());
+    let type_tld = |n: &str, ty: Val| Val::Ctor("Type".into(), vec![named("ToplevelTypeDefinition", vec![("name", Val::Str(n.into())), ("ty", ty), ("parameterization", Val::none())])], Map::new());
+    let defs: Vec<(&str, Val)> = vec![("Num", type_tld("Num", num_ty)), ("Col", type_tld("Col", col_ty))];
+    let tref = |n: &str| Val::Ctor("ElsewhereDeclaredType".into(), vec![named("DeclarationElsewhere", vec![("identifier", Val::Str(n.into())), ("parent", Val::none()), ("module", Val::none()), ("constraints", Val::List(vec![]))])], Map::new());
+    let depth = std::cell::Cell::new(0usize);
     let hook = |_: &Evaluator, name: &str, a: &[Val]| -> Option<Result<Val, String>> {
         match (name, a.first()) {
-            (".default", Some(Val::Ctor(n, p, _))) => Some(Ok(if n == "Default" { Val::some(p.first().cloned().unwrap_or(Val::Unit)) } else { Val::none() })),
-            (".clone", Some(v)) | (".as_ref", Some(v)) | (".to_owned", Some(v)) if a.len() == 1 => Some(Ok(v.clone())),
-            ("Box::new", Some(v)) => Some(Ok(v.clone())),
-            (".ok_or_else", Some(Val::Ctor(n, p, _))) if n == "Some" => Some(Ok(Val::Ctor("Ok".into(), vec![p.first().cloned().unwrap_or(Val::Unit)], BTreeMap::new()))),
-            (".ok_or_else", Some(Val::Ctor(n, _, _))) if n == "None" => Some(Ok(Val::Ctor("Err".into(), vec![Val::Str("no value".into())], BTreeMap::new()))),
-            (".map", Some(Val::Ctor(n, _, _))) if n == "Err" => Some(Ok(a[0].clone())),
+            (".iter", Some(Val::Opaque(s))) if s == "tlds" => Some(Ok(Val::List(defs.iter().map(|(n, t)| Val::Tuple(vec![Val::Str(n.to_string()), t.clone()])).collect()))),
+            (".values", Some(Val::Opaque(s))) if s == "tlds" => Some(Ok(Val::List(defs.iter().map(|(_, t)| t.clone()).collect()))),
+            (".get", Some(Val::Opaque(s))) if s == "tlds" => match a.get(1) {
+                Some(Val::Str(k)) => Some(Ok(defs.iter().find(|(n, _)| n == k).map(|(_, v)| Val::some(v.clone())).unwrap_or(Val::none()))),
+                _ => Some(Err("tlds.get with a key that is not a name".into())),
+            },
+            (".link_with_type", _) | ("Self::link_enum_or_distinguished", _) | ("ASN1Value::link_enum_or_distinguished", _) => {
+                depth.set(depth.get() + 1);
+                if depth.get() > 24 { Some(Err("link_with_type does not return".into())) } else { None }
+            }
+            (".int_type", _) => Some(Ok(Val::Sym("INT".into()))),
+            (".is_const_type", _) => Some(Ok(Val::Bool(false))),
+            (".borrow_mut", Some(v)) | (".borrow", Some(v)) if a.len() == 1 && matches!(v, Val::Ctor(..)) => Some(Ok(v.clone())),
+            (".as_str", Some(Val::Ctor(n, p, _))) if n == "ElsewhereDeclaredType" => Some(Ok(p.first().and_then(|d| match d { Val::Ctor(_, _, f) => f.get("identifier").cloned(), _ => None }).unwrap_or(Val::Str("?".into())))),
+            (".as_str", Some(Val::Ctor(n, _, _))) if n == "Integer" => Some(Ok(Val::Str("INTEGER".into()))),
+            (".is_builtin_type", Some(Val::Ctor(n, _, _))) => Some(Ok(Val::Bool(n != "ElsewhereDeclaredType"))),
+            (".into_owned", Some(v)) if a.len() == 1 => Some(Ok(v.clone())),
+            ("grammar_error!", _) => Some(Ok(Val::Sym("GrammarError".into()))),
             _ => None,
         }
     };
-    let ev = Evaluator { consts: &consts, call_hook: &hook, inline: None };
-    let val_param = f.sig.inputs.iter().filter_map(|a| match a { syn::FnArg::Typed(t) => Some(tok(&t.pat)), _ => None }).next().unwrap_or("val".into());
-    for (written, has_default) in [(true, true), (false, true), (true, false), (false, false)] {
-        let key = format!("component written={} DEFAULT={}", written, has_default);
-        ctx.oblige("C07.struct", &key, true);
-        let mut mf = BTreeMap::new();
-        mf.insert("name".to_string(), Val::Str("x".into()));
-        mf.insert("ty".to_string(), Val::Opaque("ty".into()));
-        mf.insert("optionality".to_string(), if has_default { Val::Ctor("Default".into(), vec![Val::Sym("DEFAULT-3".into())], BTreeMap::new()) } else { Val::ctor("Required") });
-        let member = Val::Ctor("SequenceOrSetMember".into(), vec![], mf);
-        let mut env = Env::new();
-        let mut list = vec![Val::Tuple(vec![Val::some(Val::Str("other".into())), Val::Sym("OTHER".into())])];
-        if written {
-            list.push(Val::Tuple(vec![Val::some(Val::Str("x".into())), Val::Sym("WRITTEN-9".into())]));
-        }
-        env.insert(val_param.clone(), Val::List(list));
-        let want = if written { "Explicit(WRITTEN-9)" } else if has_default { "Implicit(DEFAULT-3)" } else { "<error>" };
-        match ev.apply_closure(&syn::Expr::Closure(clo.clone()), &[member], &env) {
-            Ok(r) => {
-                let got = match &r {
-                    Val::Ctor(ok, p, _) if ok == "Ok" => match p.first() {
-                        Some(Val::Tuple(t)) if t.len() == 3 => t[2].show(),
-                        Some(o) => o.show(),
-                        None => "?".into(),
-                    },
-                    Val::Ctor(e, _, _) if e == "Err" => "<error>".into(),
-                    o => o.show(),
-                };
-                if got != want {
-                    ctx.violate("C07.struct", &format!("component-value:written={},default={}", written, has_default), &f.file, span_line(clo),
-                        &format!("a SEQUENCE value in which component x is {} and x has {}: x gets `{}`, expected `{}` (the written value, and the DEFAULT only when none is written)", if written { "written (x WRITTEN-9)" } else { "omitted" }, if has_default { "DEFAULT-3" } else { "no DEFAULT" }, got, want));
-                }
-            }
-            Err(e) => ctx.fail_closed("C07.struct", &format!("[{}]: {}", key, e)),
+    let mut inl = inline_all(m, &["ASN1Value", "ToplevelDefinition"]);
+    for ty in ["Optionality"] {
+        for g in m.fns.iter().filter(|g| g.self_ty.as_deref() == Some(ty) && g.trait_.is_none()) {
+            let ps: Vec<String> = g.sig.inputs.iter().filter_map(|a| match a { syn::FnArg::Typed(t) => Some(tok(&t.pat)), _ => None }).collect();
+            inl.insert(format!(".{}", g.name), (ps, g.block.clone()));
         }
     }
-    // OPTIONAL components: the field of the generated struct is an Option<T>, so the linked value must say whether the
-    // component is present (a value that looks exactly like a mandatory one is rendered `new(.., true, ..)` for
-    // `b: Option<bool>`), and leaving the component out is a value, not an error
-    for written in [true, false] {
-        let key = format!("OPTIONAL component written={}", written);
-        ctx.oblige("C07.struct", &key, true);
-        let mut mf = BTreeMap::new();
-        mf.insert("name".to_string(), Val::Str("x".into()));
-        mf.insert("ty".to_string(), Val::Opaque("ty".into()));
-        mf.insert("optionality".to_string(), Val::ctor("Optional"));
-        let member = Val::Ctor("SequenceOrSetMember".into(), vec![], mf);
-        let mut env = Env::new();
-        let mut list = vec![Val::Tuple(vec![Val::some(Val::Str("other".into())), Val::Sym("OTHER".into())])];
+    let ev = Evaluator { consts: &consts, call_hook: &hook, inline: Some(&inl) };
+    let params: Vec<String> = f.sig.inputs.iter().filter_map(|a| match a { syn::FnArg::Typed(t) => Some(tok(&t.pat).replace("mut ", "")), _ => None }).collect();
+    let member = |n: &str, ty: Val, opt: Val| named("SequenceOrSetMember", vec![("name", Val::Str(n.into())), ("tag", Val::none()), ("ty", ty), ("optionality", opt), ("is_recursive", Val::Bool(false)), ("constraints", Val::List(vec![]))]);
+    let raw = |id: &str| named("ElsewhereDeclaredValue", vec![("identifier", Val::Str(id.into())), ("parent", Val::none()), ("module", Val::none())]);
+    let linked_int = Val::Ctor("LinkedNestedValue".into(), vec![], [("supertypes".to_string(), Val::List(vec![Val::Str("Num".into())])), ("value".to_string(), named("LinkedIntValue", vec![("integer_type", Val::Sym("INT".into())), ("value", Val::int(2))]))].into_iter().collect());
+    let linked_enum = named("EnumeratedValue", vec![("enumerated", Val::Str("Col".into())), ("enumerable", Val::Str("green".into()))]);
+    let scenarios: Vec<(&str, &str, Val, Option<Val>)> = vec![
+        ("raw named number (`b Num DEFAULT two`, Num linked later)", "Num", raw("two"), None),
+        ("raw enumeral (`b Col DEFAULT green`, Col linked later)", "Col", raw("green"), None),
+        ("linked named number (Num linked before)", "Num", linked_int.clone(), Some(linked_int)),
+        ("linked enumeral (Col linked before)", "Col", linked_enum.clone(), Some(linked_enum)),
+    ];
+    // (written?, DEFAULT? / OPTIONAL / mandatory): the written value wins, the DEFAULT is taken only when nothing is written, a
+    // mandatory component that is left out is an error; an OPTIONAL component must stay distinguishable from a mandatory one
+    // (the field is an Option<T>) and may be left out
+    let nine = Val::Ctor("Integer".into(), vec![Val::int(9)], Map::new());
+    let three = Val::Ctor("Integer".into(), vec![Val::int(3)], Map::new());
+    for (written, opt_label, opt) in [
+        (true, "DEFAULT", Val::Ctor("Default".into(), vec![three.clone()], Map::new())), (false, "DEFAULT", Val::Ctor("Default".into(), vec![three.clone()], Map::new())),
+        (true, "mandatory", Val::ctor("Required")), (false, "mandatory", Val::ctor("Required")),
+        (true, "OPTIONAL", Val::ctor("Optional")), (false, "OPTIONAL", Val::ctor("Optional")),
+    ] {
+        let key = format!("component written={} {}", written, opt_label);
+        ctx.oblige(rule, &key, true);
+        depth.set(0);
+        let s = named("SequenceOrSet", vec![("components_of", Val::List(vec![])), ("extensible", Val::none()), ("constraints", Val::List(vec![])),
+            ("members", Val::List(vec![member("a", int_ty.clone(), Val::ctor("Required")), member("x", int_ty.clone(), opt)]))]);
+        let mut list = vec![Val::Tuple(vec![Val::some(Val::Str("a".into())), Val::Ctor("Integer".into(), vec![Val::int(1)], Map::new())])];
         if written {
-            list.push(Val::Tuple(vec![Val::some(Val::Str("x".into())), Val::Sym("WRITTEN-9".into())]));
+            list.push(Val::Tuple(vec![Val::some(Val::Str("x".into())), nine.clone()]));
         }
-        env.insert(val_param.clone(), Val::List(list));
-        match ev.apply_closure(&syn::Expr::Closure(clo.clone()), &[member], &env) {
-            Ok(r) => {
-                let got = match &r {
-                    Val::Ctor(ok, p, _) if ok == "Ok" => match p.first() {
-                        Some(Val::Tuple(t)) if t.len() == 3 => t[2].show(),
-                        Some(o) => o.show(),
-                        None => "?".into(),
-                    },
-                    Val::Ctor(e, _, _) if e == "Err" => "<error>".into(),
-                    o => o.show(),
-                };
-                if written && got == "Explicit(WRITTEN-9)" {
-                    ctx.violate("C07.struct", "optional-component:presence-lost", &f.file, span_line(clo),
-                        "a SEQUENCE value that gives the OPTIONAL component x: x is linked as `Explicit(WRITTEN-9)`, exactly like a mandatory component — the generator cannot know that the field is an Option<T> and renders `Seq::new(.., true, ..)` for `b: Option<bool>` (`s Seq ::= { a 5, b TRUE }` does not type-check, no warning)");
-                }
-                if !written && got == "<error>" {
-                    ctx.violate("C07.struct", "optional-component:omission-is-an-error", &f.file, span_line(clo),
-                        "a SEQUENCE value that leaves the OPTIONAL component x out is answered with an error (`No value for field x found!`): `s Seq ::= { a 5 }` is a valid value (x absent) and yields a warning and no binding");
+        let mut env = Env::new();
+        env.insert(params.first().cloned().unwrap_or("val".into()), Val::List(list));
+        env.insert(params.get(1).cloned().unwrap_or("s".into()), s);
+        env.insert(params.get(2).cloned().unwrap_or("tlds".into()), Val::Opaque("tlds".into()));
+        env.insert(params.get(3).cloned().unwrap_or("type_name".into()), Val::some(Val::Str("Inner".into())));
+        let got: Result<String, String> = match ev.eval_fn_body(&f.block, &mut env) {
+            Ok(Val::Ctor(ok, p, _)) if ok == "Ok" => {
+                let fields = match p.first() { Some(Val::Ctor(n, q, _)) if n == "LinkedStructLikeValue" => match q.first() { Some(Val::List(l)) => l.clone(), _ => vec![] }, _ => vec![] };
+                let of = |n: &str| fields.iter().find_map(|t| match t { Val::Tuple(t) if t.len() == 3 && t[0] == Val::Str(n.into()) => Some(t[2].clone()), _ => None });
+                // the shape of the mandatory component a is the reference for "looks like a mandatory one"
+                let shape = |v: &Val| match v { Val::Ctor(k, q, _) => format!("{}({})", k, q.first().map(|x| x.show().replace(['1', '3', '9'], "N")).unwrap_or_default()), o => o.show() };
+                match (of("x"), of("a")) {
+                    (Some(x), Some(a)) => {
+                        let num = if x.show().contains('9') { "9" } else if x.show().contains('3') { "3" } else { "?" };
+                        Ok(format!("{}|{}|{}", match &x { Val::Ctor(k, _, _) => k.clone(), o => o.show() }, num, if shape(&x) == shape(&a) { "like-mandatory" } else { "marked" }))
+                    }
+                    (None, _) => Ok("absent".into()),
+                    _ => Err("component a is missing from the linked value".into()),
                 }
             }
-            Err(e) => ctx.fail_closed("C07.struct", &format!("[{}]: {}", key, e)),
+            Ok(Val::Ctor(e, _, _)) if e == "Err" => Ok("<error>".into()),
+            Ok(o) => Err(o.show().chars().take(120).collect()),
+            Err(e) => Err(e),
+        };
+        match got {
+            Err(e) => ctx.fail_closed(rule, &format!("[{}]: {}", key, e)),
+            Ok(g) => match (written, opt_label) {
+                (true, "DEFAULT") | (true, "mandatory") => if !g.starts_with("Explicit|9") {
+                    ctx.violate(rule, &format!("component-value:written=true,default={}", opt_label == "DEFAULT"), &f.file, f.line, &format!("a SEQUENCE value in which the {} component x is written (x 9): x gets `{}`, expected the written value", opt_label, g));
+                },
+                (false, "DEFAULT") => if !g.starts_with("Implicit|3") {
+                    ctx.violate(rule, "component-value:written=false,default=true", &f.file, f.line, &format!("a SEQUENCE value that leaves out x (DEFAULT 3): x gets `{}`, expected the DEFAULT", g));
+                },
+                (false, "mandatory") => if g != "<error>" {
+                    ctx.violate(rule, "component-value:written=false,default=false", &f.file, f.line, &format!("a SEQUENCE value that leaves out the mandatory component x is accepted: x gets `{}`", g));
+                },
+                (true, _) => if g == "Explicit|9|like-mandatory" {
+                    ctx.violate(rule, "optional-component:presence-lost", &f.file, f.line,
+                        "a SEQUENCE value that gives the OPTIONAL component x: x is linked exactly like a mandatory component — the generator cannot know that the field is an Option<T> and renders `Seq::new(.., true, ..)` for `b: Option<bool>` (`s Seq ::= { a 5, b TRUE }` does not type-check, no warning)");
+                } else if !g.contains("|9|") {
+                    ctx.violate(rule, "optional-component:written-value-lost", &f.file, f.line, &format!("a SEQUENCE value that gives the OPTIONAL component x (x 9): x gets `{}`", g));
+                },
+                (false, _) => if g == "<error>" {
+                    ctx.violate(rule, "optional-component:omission-is-an-error", &f.file, f.line,
+                        "a SEQUENCE value that leaves the OPTIONAL component x out is answered with an error (`No value for field x found!`): `s Seq ::= { a 5 }` is a valid value (x absent) and yields a warning and no binding");
+                },
+            },
+        }
+    }
+    for (label, tyname, default, unchanged) in scenarios {
+        let key = format!("implicit-default:{}", label.split(' ').take(3).collect::<Vec<_>>().join("-"));
+        ctx.oblige(rule, &key, true);
+        depth.set(0);
+        let s = named("SequenceOrSet", vec![("components_of", Val::List(vec![])), ("extensible", Val::none()), ("constraints", Val::List(vec![])),
+            ("members", Val::List(vec![member("a", int_ty.clone(), Val::ctor("Required")), member("b", tref(tyname), Val::Ctor("Default".into(), vec![default.clone()], Map::new()))]))]);
+        let mut env = Env::new();
+        env.insert(params.first().cloned().unwrap_or("val".into()), Val::List(vec![Val::Tuple(vec![Val::some(Val::Str("a".into())), Val::Ctor("Integer".into(), vec![Val::int(1)], Map::new())])]));
+        env.insert(params.get(1).cloned().unwrap_or("s".into()), s);
+        env.insert(params.get(2).cloned().unwrap_or("tlds".into()), Val::Opaque("tlds".into()));
+        env.insert(params.get(3).cloned().unwrap_or("type_name".into()), Val::some(Val::Str("Inner".into())));
+        match ev.eval_fn_body(&f.block, &mut env) {
+            Ok(Val::Ctor(ok, p, _)) if ok == "Ok" => {
+                let fields = match p.first() { Some(Val::Ctor(n, q, _)) if n == "LinkedStructLikeValue" => match q.first() { Some(Val::List(l)) => l.clone(), _ => vec![] }, _ => vec![] };
+                let b = fields.iter().find_map(|t| match t { Val::Tuple(t) if t.len() == 3 && t[0] == Val::Str("b".into()) => Some(t[2].clone()), _ => None });
+                match b {
+                    Some(Val::Ctor(k, q, _)) if k == "Implicit" => {
+                        let v = q.first().cloned().unwrap_or(Val::Unit);
+                        let sh = v.show();
+                        if sh.contains("ElsewhereDeclaredValue") {
+                            ctx.violate(rule, "implicit-default:bare-reference", &f.file, f.line,
+                                &format!("`{{ a 1 }}` under `SEQUENCE {{ a INTEGER, b {} DEFAULT .. }}`, {}: the omitted component gets `{}` — the DEFAULT exactly as the lexer left it; the generators render a bare reference as a constant (`TWO`, `GREEN`) nobody declares. Whether the DEFAULT is linked by then depends on the order in which the two definitions are linked, i.e. on their names", tyname, label, sh.chars().take(110).collect::<String>()));
+                        } else if let Some(u) = &unchanged {
+                            if &v != u {
+                                ctx.violate(rule, "implicit-default:linked-twice", &f.file, f.line,
+                                    &format!("`{{ a 1 }}` under `SEQUENCE {{ a INTEGER, b {} DEFAULT .. }}`, {}: the DEFAULT is linked already and becomes `{}` — linked a second time (`Col(Col::green)`)", tyname, label, sh.chars().take(140).collect::<String>()));
+                            }
+                        }
+                    }
+                    o => ctx.violate(rule, "implicit-default:missing", &f.file, f.line, &format!("`{{ a 1 }}` under `SEQUENCE {{ a INTEGER, b {} DEFAULT .. }}`: component b of the linked value is {:?}, expected its DEFAULT", tyname, o.map(|x| x.show()))),
+                }
+            }
+            Ok(Val::Ctor(e, _, _)) if e == "Err" => ctx.violate(rule, "implicit-default:refused", &f.file, f.line, &format!("`{{ a 1 }}` under `SEQUENCE {{ a INTEGER, b {} DEFAULT .. }}`, {}: the value is refused although b has a DEFAULT", tyname, label)),
+            Ok(o) => ctx.fail_closed(rule, &format!("[{}]: {}", key, o.show().chars().take(120).collect::<String>())),
+            Err(e) => ctx.fail_closed(rule, &format!("[{}]: {}", key, e)),
         }
     }
 }
